@@ -67,7 +67,7 @@ CLAIMED.update({
              "a fresh key that is the visited alias's path => terminates on finite heaps), Alias.kind/has_docstring never raise, one generic member iteration of "
              "resolve_module_aliases. Whole-graph clauses (no escape from load/resolve_aliases, fixpoint of the resolve_aliases loop, which is not under a loop contract) are a "
              "bounded search over generated import graphs in one package and over sets of packages loaded in several orders with external resolution.",
-        note="Modular recursion (callee contract assumed at the recursive call); finite heap; exception constructors by contract. Alias.aliases is the real forwarding property (can raise the alias errors). Fixed: C06-G2/G3/G4, C06-P1, C06-P2 (resolve_aliases stopped before a fixpoint after loading a package); known: C06-G1, C06-G5.",
+        note="Modular recursion (callee contract assumed at the recursive call); finite heap; exception constructors by contract. Alias.aliases is the real forwarding property (can raise the alias errors). Fixed: C06-G2/G3/G4, C06-P1, C06-P2 (resolve_aliases stopped before a fixpoint after loading a package), C06-P3 (RuntimeError / KeyError for wildcard cycles through several packages); known: C06-G1, C06-G5, C06-G6.",
         ref="DESIGN.md 3/C06"),
 })
 
